@@ -370,5 +370,6 @@ def run(rc):
 
 
 def replay(data):
-    from ..replay import replay_grammar_case
-    return replay_grammar_case(data)
+    import sys
+    from ..replay import replay_by_rerun
+    return replay_by_rerun(sys.modules[__name__], data)
